@@ -169,14 +169,14 @@ func (e *Engine) exec(c *Config, f *Frame, ins ssa.Instruction, rest func(c *Con
 	case *ssa.Phi:
 		inconclusive("phi executed directly")
 	case *ssa.Jump:
-		return e.jump(c, f, f.blk.Succs[0])
+		return e.jumpYield(c, f, f.blk.Succs[0])
 	case *ssa.If:
 		cond := e.get(f, x.Cond).(*Term)
 		if cond.IsTrue() {
-			return e.jump(c, f, f.blk.Succs[0])
+			return e.jumpYield(c, f, f.blk.Succs[0])
 		}
 		if cond.IsFalse() {
-			return e.jump(c, f, f.blk.Succs[1])
+			return e.jumpYield(c, f, f.blk.Succs[1])
 		}
 		ct, cf := e.split(c, cond)
 		if ct != nil {
@@ -204,6 +204,11 @@ func (e *Engine) exec(c *Config, f *Frame, ins ssa.Instruction, rest func(c *Con
 			res = s
 		}
 		e.doReturnFrom(c, res)
+		if len(e.work) > 0 && !c.g.IsFalse() {
+			// potential join of callee paths: let the worklist order decide
+			e.enqueue(c)
+			return false
+		}
 	case *ssa.RunDefers:
 		if len(f.defers) > 0 {
 			d := f.defers[len(f.defers)-1]
@@ -369,7 +374,7 @@ func (e *Engine) unop(c *Config, f *Frame, x *ssa.UnOp) Value {
 		if r == nil {
 			return zeroValue(x.Type())
 		}
-		return r
+		return resolveDeep(r, c.g)
 	case token.NOT:
 		return Not(v.(*Term))
 	case token.SUB:
@@ -913,4 +918,40 @@ func upperBound(t *Term) (int, bool) {
 func isInvalidType(t types.Type) bool {
 	b, ok := t.(*types.Basic)
 	return ok && b.Kind() == types.Invalid
+}
+
+// resolveDeep resolves CondV wrappers inside a loaded value under guard g.
+func resolveDeep(v Value, g *Term) Value {
+	switch x := v.(type) {
+	case *CondV:
+		return resolveDeep(resolveCond(x, g), g)
+	case *StructV:
+		var out *StructV
+		for i, f := range x.F {
+			nf := resolveDeep(f, g)
+			if nf != f {
+				if out == nil {
+					out = &StructV{F: append([]Value(nil), x.F...)}
+				}
+				out.F[i] = nf
+			}
+		}
+		if out != nil {
+			return out
+		}
+	}
+	return v
+}
+
+// jumpYield jumps and, at join points, yields to the worklist so that configs arriving at the same
+// point can be merged before anyone runs ahead.
+func (e *Engine) jumpYield(c *Config, f *Frame, to *ssa.BasicBlock) bool {
+	if !e.jump(c, f, to) {
+		return false
+	}
+	if len(to.Preds) > 1 && len(e.work) > 0 {
+		e.enqueue(c)
+		return false
+	}
+	return true
 }
